@@ -94,6 +94,25 @@ CHECKS = {
              "HTTP-FLV client; those clauses of C13 are not decided by this check. RTMP chunk / AMF / FLV input surfaces "
              "are covered by C08 / C18 / C04 / C05.",
         ref="6/C13"),
+    "C20": dict(
+        technique="explicit TLA+ spec Locks (the server's goroutine classes as processes over its mutexes, the capacity-1 exit "
+                  "channels and the task pool; TLC exhaustive: deadlock, wait cycles, blocked sends, lock order, completion "
+                  "under fairness) + static conformance (lock graph, sends / closes under a mutex, unprotected accesses and "
+                  "leaked mutexes extracted from the current source by harness/cmd/lockgraph and decided by TLC against "
+                  "the declarations of the specification, spec/Trace_Locks.tla) + watchdog stress runs of a real "
+                  "ServerManager whose outcome Trace_Locks decides",
+        text="TLC explores every interleaving of the modelled goroutine classes (session goroutines, API handlers, tick loop, "
+             "ServerManager.Dispose, relay goroutines, RTSP in-session reader, HLS handler and cleanup task) in groups of 3-4 "
+             "processes over a pool of 2 group objects; the lock graph and channel operations of the current source tree are "
+             "extracted on every run and each fact is accepted or rejected by TLC; a real ServerManager is driven by "
+             "concurrent publishers, subscribers, API calls, ticks and a final Dispose in a child process with a watchdog on "
+             "every call, and died / hung is decided by the trace spec.",
+        note="NOT decided: the data-race clause of C20 - data-race freedom of arbitrary memory accesses is outside what a "
+             "TLA+ specification observes; the Go race detector runs only as an auxiliary observer in the thorough tier and "
+             "is never alarmed on. Lock-order extraction is type-level (Group.mutex is one class); calls through stored "
+             "function values and the mutexes of the naza dependency are not extracted; the static 'Unguarded' facts "
+             "cover only functions whose callers are all known.",
+        ref="6/C20"),
     "C12": dict(
         technique="TLA+ spec Rtp (packer acceptor, reorder network, lal's RtpPacketList / RtpUnpackContainer / TryUnpackOne; "
                   "TLC exhaustive on a scaled model) + re-concretised cases run through lal's packer and unpack container, "
